@@ -14,3 +14,5 @@ package index
 // would carry without the limit.
 //@ func index.(*indexData).Search
 //@   control_only SearchOptions.ShardMaxMatchCount, SearchOptions.ShardRepoMaxMatchCount
+// C04 (see zz_verif_contracts_c04.go): a search writes nothing that is reached through the shard.
+//@   no_store_through indexData except docMatchTreeCache
